@@ -37,12 +37,13 @@ var combos8 = []variant{vPlain, vInline, vSwitch, vBoth, vNoast, vNI, vNS, vNB}
 
 // config = variant + run-time options of the generated parser.
 type config struct {
-	name   string
-	v      variant
-	memo   bool
-	size   int
-	u      string
-	pretty bool
+	name      string
+	v         variant
+	memo      bool
+	size      int
+	u         string
+	pretty    bool
+	treeFirst bool // AST()/printers before Execute()
 }
 
 type entry struct {
@@ -278,7 +279,7 @@ func (f *family) runBatch(peg string, cases []*gcase, vs []variant, bno int) {
 					continue // under -inline only the first rule is guaranteed to have a slot
 				}
 				where[key{ci, ei, cfi}] = len(reqs)
-				reqs = append(reqs, corpus.Req{Pkg: pkgName(cs.id, cf.v), Entry: e.rule, In: []byte(e.input), Memo: cf.memo, Size: cf.size, U: cf.u, Pretty: cf.pretty, Stdout: f.stdout, NoExec: f.noexec})
+				reqs = append(reqs, corpus.Req{Pkg: pkgName(cs.id, cf.v), Entry: e.rule, In: []byte(e.input), Memo: cf.memo, Size: cf.size, U: cf.u, Pretty: cf.pretty, Stdout: f.stdout, NoExec: f.noexec, TreeFirst: cf.treeFirst})
 			}
 		}
 	}
